@@ -878,12 +878,12 @@ func checkProc(prop, tier string, seed uint64, runsOverride int, keep bool) int 
 		"assumptions": []string{"schedule forcing over real processes: the property-relevant order space (position of Done() relative to the launcher's steps; of Launch's return relative to the daemon's pre-Done work) is covered by four forced schedules; kernel micro-timing inside a forced order is not controlled", "the pause hook (build tag verif) only adds a wait; with the tag off it is an empty function"},
 		"coverage": map[string]any{
 			"evaluations": st.Launches, "distinct_nontrivial": st.Distinct,
-			"rule":                "one case = one daemon.Launch with three real processes under a forced schedule: S1 natural, S2 Done() delivered while the launcher is parked before it listens, S3 daemon parked before Done() (Launch must still be waiting after 150ms), S4 launcher released first and daemon 50ms later, S5 one daemon per caller that takes seven seconds to reach Done() (alongside everything else), S0 (a fault, about one group in five) the handler exits before Done() and the launches that follow in the same caller are the ones checked; 0..5 marker files written before Done(); the launcher process lingering 0, 3 or 40 ms between launch() returning and its exit; alone, 2..4 launches concurrently under forced schedules, or bursts of 2..8 natural-order launches of different handlers released together; distinct = distinct (schedule, markers, concurrency width); all are non-trivial (a forced or concurrent order)",
+			"rule":                "one case = one daemon.Launch with three real processes under a forced schedule: S1 natural, S2 Done() delivered while the launcher is parked before it listens, S3 daemon parked before Done() (Launch must still be waiting after 150ms), S4 launcher released first and daemon 50ms later, S5 one daemon per caller that takes seven seconds to reach Done() (alongside everything else), S6 (eight per caller, one per 40 launches in the thorough tier) a one-shot daemon that stops its launcher with SIGSTOP once the launcher waits, calls Done() and exits at once - the launcher is continued when the daemon is gone and finds both events waiting, S0 (a fault, about one group in five) the handler exits before Done() and the launches that follow in the same caller are the ones checked; 0..5 marker files written before Done(); the launcher process lingering 0, 3 or 40 ms between launch() returning and its exit; alone, 2..4 launches concurrently under forced schedules, or bursts of 2..8 natural-order launches of different handlers released together; distinct = distinct (schedule, markers, concurrency width); all are non-trivial (a forced or concurrent order)",
 			"samples":             st.Samples,
 			"per_schedule":        st.PerKind,
 			"concurrent_launches": st.Concurrent,
 			"runs_per_hour":       int(float64(st.Launches) / wall * 3600),
-			"faults_fired":        map[string]int{"launcher.parked_before_listening": st.PerKind["S2"] + st.PerKind["S4"], "daemon.slow_before_done": st.PerKind["S3"] + st.PerKind["S4"], "daemon.exits_before_done": st.PerKind["S0"], "daemon.takes_seven_seconds": st.PerKind["S5"]},
+			"faults_fired":        map[string]int{"launcher.parked_before_listening": st.PerKind["S2"] + st.PerKind["S4"], "daemon.slow_before_done": st.PerKind["S3"] + st.PerKind["S4"], "daemon.exits_before_done": st.PerKind["S0"], "daemon.takes_seven_seconds": st.PerKind["S5"], "launcher.stopped_across_done_and_exit_of_one_shot_daemon": st.PerKind["S6"]},
 			"real_components":     []string{"daemon/daemon.go", "os/exec, os/signal, the Go runtime", "the kernel (fork/exec, SIGINT, reparenting)"},
 			"stub_components":     []string{"none: the order of the three processes is forced through gate files (one guarded pause hook in daemon.launch, harness code in the daemon's handler and in the caller)"},
 			"tree":                treeID(),
